@@ -151,6 +151,7 @@ type litBuilder struct {
 	pre     []string // statements to run before the call (slice construction)
 	nvar    int
 	bufs    map[string]string
+	tooBig  bool
 }
 
 func (lb *litBuilder) need(term string) { lb.ask = append(lb.ask, term) }
@@ -167,6 +168,10 @@ func qual(c *FnCtx, t types.Type) string {
 // collect lists the terms needed to rebuild v (depth-limited for interfaces).
 func (lb *litBuilder) collect(v Val, t types.Type, depth int) {
 	c := lb.c
+	if len(lb.ask) > 800 || len(v.S) > 1200 || lb.tooBig {
+		lb.tooBig = true
+		return
+	}
 	switch v.K {
 	case KInt, KBool, KPtr:
 		lb.need(v.S)
@@ -178,7 +183,7 @@ func (lb *litBuilder) collect(v Val, t types.Type, depth int) {
 		for _, f := range v.F {
 			lb.need(f.S)
 		}
-		if v.Elem != nil {
+		if v.Elem != nil && depth > 0 {
 			for k := 0; k < 8; k++ {
 				ev := c.readElem(c.entry, v.Elem, v.ref(), sx("+", v.off(), strconv.Itoa(k)))
 				lb.collect(ev, v.Elem, depth-1)
@@ -620,6 +625,10 @@ func (e *Engine) buildReplayTest(o *Obligation, t *Target, lits map[string]strin
 		n0 := len(c.cmds)
 		for _, p := range prms {
 			lb.collect(p.v, p.t, 2)
+		}
+		if lb.tooBig {
+			c.cmds = c.cmds[:n0]
+			return nil, "", "the arguments are too large a structure to rebuild from the model (an interface with many implementations or deeply nested slices)"
 		}
 		extra := c.cmds[n0:]
 		_ = extra
